@@ -272,4 +272,81 @@ theorem WithGroup_matches_source (P : Par) (g : Bytes) (core : Val) (name : Byte
     have htake : groups.take (groups.length + 1) = groups := List.take_of_length_le (by omega)
     simp [WithGroup_body, hw, hmk, hcopy, htake, hset, hsetv]
 
+/-! ### `hasContent`: recursion over groups, with the fuel the nesting depth needs -/
+
+/-- loop variables of `hasContent` left behind by earlier iterations: the member and the callee's answer -/
+def hcJunk : Option (Val × Val) → Env
+  | none => []
+  | some (m, r) => [("l0", m), ("l1", r)]
+
+/-- `attr.Value = attr.Value.Resolve()`: the attribute with every LogValuer layer stripped -/
+theorem hasContent_resolve_matches_source (P : Par) (a : SAttr) (fl : Env) (rec : Stmt → State → GoMini.Out) :
+    execS (X P) rec hasContent_body.hd ⟨[("p0", attrV a)], fl⟩ = .normal ⟨[("p0", attrV (resolved a))], fl⟩ := by
+  simp [hasContent_body, Stmt.hd]
+
+mutual
+theorem hasContent_exec_matches_source (P : Par) : ∀ (a : SAttr) (F : Nat) (fl : Env), dep a + 1 ≤ F →
+    (exec (X P) F hasContent_body ⟨[("p0", attrV a)], fl⟩).fin = some ([.bool (Slog.hasContent a)], fl)
+  | .leaf k lv l, F, fl, h => by
+    obtain ⟨F', rfl⟩ : ∃ F', F = F' + 1 := ⟨F - 1, by omega⟩
+    rw [exec_succ, show hasContent_body = .seq hasContent_body.hd hasContent_body.tl from rfl, execS_seq,
+      hasContent_resolve_matches_source]
+    have hr := kindOfTy_range l.ty
+    have hk : ¬ (kindOfTy l.ty = 8) := by omega
+    simp [hasContent_body, Stmt.tl, Slog.hasContent, resolved, isZeroAttr, lvOf, kind0, hk]
+  | .nilv k lv, F, fl, h => by
+    obtain ⟨F', rfl⟩ : ∃ F', F = F' + 1 := ⟨F - 1, by omega⟩
+    rw [exec_succ, show hasContent_body = .seq hasContent_body.hd hasContent_body.tl from rfl, execS_seq,
+      hasContent_resolve_matches_source]
+    by_cases hk : k = ""
+    · subst hk
+      simp [hasContent_body, Stmt.tl, Slog.hasContent, resolved, isZeroAttr, lvOf, kind0, sbytes]
+    · have hne : (sbytes k).isEmpty = false := by rw [sbytes_isEmpty]; simp [hk]
+      simp [hasContent_body, Stmt.tl, Slog.hasContent, resolved, isZeroAttr, lvOf, kind0, hne, hk]
+  | .group k lv ms, F, fl, h => by
+    have hd : deps ms + 2 ≤ F := by simpa [dep] using h
+    obtain ⟨F', rfl⟩ : ∃ F', F = F' + 1 := ⟨F - 1, by omega⟩
+    rw [exec_succ, show hasContent_body = .seq hasContent_body.hd hasContent_body.tl from rfl, execS_seq,
+      hasContent_resolve_matches_source]
+    obtain ⟨t', hloop⟩ := hasContent_loop_matches_source P ms F' fl (by omega) 0 (attrV (.group k 0 ms)) none
+    have hL : hasContent_loop0 = .range .blank (.loc "l0") (.call "Value.Group" [.index (.loc "p0") (.lit (.int 1))])
+        hasContent_loop0.rbody := rfl
+    have hgrp : evalE (X P) ⟨[("p0", attrV (.group k 0 ms))], fl⟩ (.call "Value.Group" [.index (.loc "p0") (.lit (.int 1))]) =
+        .ok (.list (attrsV ms)) := by simp
+    simp [hasContent_body, Stmt.tl, resolved, isZeroAttr, lvOf, kind0]
+    rw [hL, execS_range, hgrp]
+    simp only [Res.out, hcJunk, List.append_nil] at hloop ⊢
+    rw [hloop]
+    cases hany : anyContent ms <;> cases t' <;> simp [Slog.hasContent, hany, hcJunk]
+/-- the loop over the members: returns true at the first member with content -/
+theorem hasContent_loop_matches_source (P : Par) : ∀ (ms : List SAttr) (F : Nat) (fl : Env), deps ms + 1 ≤ F →
+    ∀ (i : Nat) (p0 : Val) (t : Option (Val × Val)),
+    ∃ t', rangeRun (execS (X P) (exec (X P) F) hasContent_loop0.rbody) .blank (.loc "l0") (attrsV ms) i
+        ⟨[("p0", p0)] ++ hcJunk t, fl⟩ =
+      if anyContent ms then .ret [.bool true] ⟨[("p0", p0)] ++ hcJunk t', fl⟩ else .normal ⟨[("p0", p0)] ++ hcJunk t', fl⟩
+  | [], F, fl, h, i, p0, t => ⟨t, by simp [attrsV, rangeRun, anyContent]⟩
+  | m :: r, F, fl, h, i, p0, t => by
+    have hm : dep m + 1 ≤ F := by simp only [deps] at h; omega
+    have hr : deps r + 1 ≤ F := by simp only [deps] at h; omega
+    have hcall : ∀ σ : State, retK σ [.loc "l1"] "hasContent"
+        (exec (X P) F hasContent_body ⟨[("p0", attrV m)], fl⟩) = _ :=
+      fun σ => retK_of_fin1 σ _ _ _ _ _ (hasContent_exec_matches_source P m F fl hm)
+    obtain ⟨t', hrest⟩ := hasContent_loop_matches_source P r F fl hr (i + 1) p0 (some (attrV m, .bool (Slog.hasContent m)))
+    cases hc : Slog.hasContent m with
+    | true =>
+      refine ⟨some (attrV m, .bool true), ?_⟩
+      cases t <;> simp [attrsV, rangeRun, hasContent_loop0, Stmt.rbody, hcJunk, hcall, hc, anyContent, State.assign1, Env.set]
+    | false =>
+      refine ⟨t', ?_⟩
+      rw [hc] at hrest
+      cases t <;> simp [attrsV, rangeRun, hasContent_loop0, Stmt.rbody, hcJunk, hcall, hc, anyContent, State.assign1, Env.set] <;>
+        simpa [hcJunk, hasContent_loop0, Stmt.rbody] using hrest
+end
+
+/-- `hasContent(attr)` is the model's `Slog.hasContent` on every attribute tree (fuel: the nesting depth + 1) -/
+theorem hasContent_matches_source (P : Par) (a : SAttr) (fl : Env) (fuel : Nat) :
+    run (X P) (fuel + dep a + 1) "hasContent" [attrV a] fl = .done [.bool (Slog.hasContent a)] fl :=
+  run_of_fin (X P) _ _ Gen.TransSlog.hasContent [attrV a] _ _ _ rfl rfl
+    (hasContent_exec_matches_source P a (fuel + dep a + 1) fl (by omega))
+
 end ZapVerif.C18
